@@ -409,3 +409,39 @@ class _LazyEnv(dict):
 
   def copy(self):
     return self
+
+
+def conf_defaults(repo):
+  """{setting name: value ast} of the `defaults = dict(...)` / `defaults = {...}` table of carbon.conf (None when absent)."""
+  conf = repo.module('carbon.conf')
+  for st in conf.tree.body:
+    if isinstance(st, ast.Assign) and any(isinstance(t, ast.Name) and t.id == 'defaults' for t in st.targets):
+      v = st.value
+      if isinstance(v, ast.Call) and isinstance(v.func, ast.Name) and v.func.id == 'dict' and not v.args:
+        return {k.arg: k.value for k in v.keywords if k.arg}
+      if isinstance(v, ast.Dict):
+        return {k.value: val for k, val in zip(v.keys, v.values) if isinstance(k, ast.Constant)}
+  return None
+
+
+def settings_miss_exceptions(repo):
+  """names of the exception classes `settings.<UNSET OPTION>` raises, read off carbon.conf.Settings.__getattr__."""
+  conf = repo.module('carbon.conf')
+  for cls in ast.walk(conf.tree):
+    if isinstance(cls, ast.ClassDef) and cls.name == 'Settings':
+      for st in cls.body:
+        if isinstance(st, ast.Assign) and any(isinstance(t, ast.Name) and t.id == '__getattr__' for t in st.targets):
+          return {'KeyError'} if 'getitem' in ast.unparse(st.value) else {'AttributeError'}
+        if isinstance(st, ast.FunctionDef) and st.name == '__getattr__':
+          raised = set()
+          for x in ast.walk(st):
+            if isinstance(x, ast.Raise) and x.exc is not None:
+              e = x.exc.func if isinstance(x.exc, ast.Call) else x.exc
+              raised.add(ast.unparse(e).split('.')[-1])
+          caught = {ast.unparse(h.type) for t in ast.walk(st) if isinstance(t, ast.Try) for h in t.handlers if h.type is not None}
+          subs = [x for x in ast.walk(st) if isinstance(x, ast.Subscript)]
+          if subs and 'KeyError' not in caught and not any(isinstance(t, ast.Try) and any(h.type is None for h in t.handlers) for t in ast.walk(st)):
+            raised.add('KeyError')
+          return raised or {'AttributeError'}
+      return {'AttributeError'}        # a dict subclass without __getattr__
+  return None
